@@ -12,6 +12,8 @@ From CGgen Require Import Consts.
 From CG Require Import Model.Glob.
 From CG Require Import Model.BashSem.
 From CG Require Import Model.ChainTables.
+From CG Require Import Model.C17Witness.
+From CG Require Import Spec.Invocations.
 (* add new Require lines above this line *)
 Require Import ExtrOcamlBasic ExtrOcamlString.
 Extraction Language OCaml.
@@ -39,5 +41,8 @@ Separate Extraction
   BashSem.sort_desc
   BashSem.assoc_of
   ChainTables.chain_alltables
+  C17Witness.w1
+  C17Witness.w2
+  Invocations.spec_run
   (* add new roots above this line *)
   Prelude.pow2.
